@@ -341,7 +341,50 @@ def q3u(k: int, swap: bool) -> str:
     return q.run(_q3u, (k, swap))
 
 
+# ---------------------------------------------------------------- Q3m the graph is built from what the targets declare when it is built
+def _q3m(how, which):
+    """A workflow file may fill a target's inputs / outputs after creating it (the collector idiom: `merge.inputs.append(x)` in
+    the loop that creates the producers).  The relation is that of the paths declared when the graph is built."""
+    if not (q.in_range(how, 4) and q.in_range(which, 2)):
+        return q.SKIP
+    how, which = q.pick([0, 1, 2, 3], how), q.pick([0, 1], which)
+    w = vfs.VFS()
+    w.dirs.add("/vfs/p")
+    w.add("/vfs/p/src", 5, "source")
+    vfs.install(w)
+    try:
+        A = Target(name="A", inputs=["src"], outputs=([] if which == 1 and how < 2 else ({} if which == 1 and how == 2 else ["a"])), options={}, working_dir="/vfs/p", spec="x")
+        B = Target(name="B", inputs=([] if which == 0 and how < 2 else ({} if which == 0 and how == 2 else ["a"])), outputs=["b"], options={}, working_dir="/vfs/p", spec="y")
+        t, attr = (B, "inputs") if which == 0 else (A, "outputs")
+        if how == 0:
+            getattr(t, attr).append("a")                 # in-place append
+        elif how == 1:
+            getattr(t, attr).extend(["./a"])             # in-place extend, another spelling
+        elif how == 2:
+            getattr(t, attr)["grp"] = ["a"]              # a named group added later
+        else:
+            setattr(t, attr, ["a"])                      # plain re-assignment (control)
+        g = Graph.from_targets({"A": A, "B": B}, CachedFilesystem())
+        if A not in g.dependencies[B] or B not in g.dependents[A]:
+            return "B %s 'a' and A %s it (declared by %s), but the graph has no edge: A provides %s, B needs %s" % (
+                "reads", "writes", ["append", "extend", "a named group added later", "re-assignment"][how], A.flattened_outputs(), B.flattened_inputs())
+        if set(x.name for x in g.endpoints()) != {"B"}:
+            return "endpoints %s, expected B only" % sorted(x.name for x in g.endpoints())
+        return ""
+    finally:
+        vfs.uninstall()
+
+
+def q3m(how: int, which: int) -> str:
+    """
+    post: _ == ""
+    """
+    return q.run(_q3m, (how, which))
+
+
 QUERIES = [
+    {"name": "Q3m", "fn": q3m, "shards": [{}], "timeout": 120,
+     "bound": "inputs of the consumer or outputs of the producer filled after the target was created: append, extend, a named group added to a dict, re-assignment"},
     {"name": "Q3u", "fn": q3u, "shards": [{}], "timeout": 120,
      "bound": "catalogue of %d pairs of file names that look alike (Unicode normalisation forms, letter case, trailing blank, compatibility characters) and one control pair" % len(LOOK)},
     {"name": "Q3l", "fn": q3l, "shards": [{}], "timeout": 300,
